@@ -300,7 +300,7 @@ def run_pp_case(case):
                             raw_done(r) if r['future'] else None
                             for r in R.transfers]
                         R.end['uninterrupted'] = detsched.policy_quiet(
-                            sched.policy)
+                            sched.policy, sched)
                         if how == 'with_kbi':
                             raise KeyboardInterrupt()
                         if how == 'with_exc':
